@@ -6,6 +6,7 @@
 package gocql
 
 import (
+	"time"
 	"bytes"
 	"fmt"
 	"reflect"
@@ -23,6 +24,17 @@ type vxValCase struct {
 	Value   cqlspec.Value  `json:"value"`
 	Choices []int          `json:"choices"`
 	Dirty   *cqlspec.Value `json:"dirty,omitempty"` // another value of the same type, decoded into every destination first (a destination that was used before)
+	TZ      int            `json:"tz,omitempty"`    // the process's local time zone during the case, minutes east of UTC (values must not depend on it)
+}
+
+// vxSetLocal sets time.Local for the duration of a case (every part runs its cases one at a time).
+func vxSetLocal(minutes int) func() {
+	if minutes == 0 {
+		return func() {}
+	}
+	old := time.Local
+	time.Local = time.FixedZone("vx", minutes*60)
+	return func() { time.Local = old }
 }
 
 func vxDrawValCase(t *rapid.T) *vxValCase {
@@ -33,6 +45,7 @@ func vxDrawValCase(t *rapid.T) *vxValCase {
 		d := vxDrawValue(t, ty, true, proto)
 		c.Dirty = &d
 	}
+	c.TZ = rapid.SampledFrom([]int{0, 0, 0, 540, -300, -30, -660, 765}).Draw(t, "tz")
 	return c
 }
 
@@ -290,6 +303,10 @@ func TestVxC02RoundTrip(t *testing.T) {
 		New:  func() interface{} { return &vxValCase{} },
 		Run: func(ci interface{}, k *vstats.Case) error {
 			c := ci.(*vxValCase)
+			defer vxSetLocal(c.TZ)()
+			if c.TZ != 0 {
+				k.Class("local time zone other than UTC")
+			}
 			if c.Proto < 1 || c.Proto > 5 || !vxValid(c.Type, c.Value) {
 				k.Class("invalid-case")
 				return nil
@@ -429,6 +446,10 @@ func TestVxC12Encode(t *testing.T) {
 		New:  func() interface{} { return &vxValCase{} },
 		Run: func(ci interface{}, k *vstats.Case) error {
 			c := ci.(*vxValCase)
+			defer vxSetLocal(c.TZ)()
+			if c.TZ != 0 {
+				k.Class("local time zone other than UTC")
+			}
 			if c.Proto < 1 || c.Proto > 5 || !vxValid(c.Type, c.Value) || !cqlspec.Encodable(c.Type, c.Value, c.Proto) {
 				k.Class("invalid-case")
 				return nil
@@ -556,6 +577,10 @@ func TestVxC12Decode(t *testing.T) {
 		New:  func() interface{} { return &vxValCase{} },
 		Run: func(ci interface{}, k *vstats.Case) error {
 			c := ci.(*vxValCase)
+			defer vxSetLocal(c.TZ)()
+			if c.TZ != 0 {
+				k.Class("local time zone other than UTC")
+			}
 			if c.Proto < 1 || c.Proto > 5 || !vxValid(c.Type, c.Value) || !cqlspec.Encodable(c.Type, c.Value, c.Proto) {
 				k.Class("invalid-case")
 				return nil
